@@ -10,6 +10,32 @@ TRUSTED_COMMON = [
 ]
 
 PROPS = {
+    "C14": dict(
+        suites=[140],
+        design_ref="DESIGN.md section 5, C14",
+        rule=("suite 140: operation histories on a Subject, compared on FULL state after every operation (endpoint, token, order, sequence, and -- through the cfg(coap_lite_verif) read-only hooks -- unacknowledged count and pending id): "
+              "all sequences of depth 3 (thorough 4) over the alphabet 2 endpoints x 2 tokens x 2 paths (a, a/b) x 2 ids x {CON,NON} x limits {0,1,2} (39 operations), all continuations of depth 2 (thorough 3) after 12 (thorough 60) random prefixes of length 2..6, "
+              "300 (thorough 3000) random histories of length 200 over up to 5 endpoints and 4 paths, directed long histories (limit, limit+1, limit+2, 600 rounds) at limits 0, 1, 10, 254, 255 with and without acknowledgements, and the end of the sequence range (hook); "
+              "verdict = equality with an independently structured relational reference registry (Suite14.rstep) at every step; class 1 no round / 2 rounds / 3 rounds and acks; distinct = distinct input"),
+        level_text=("Theorems over all histories (induction on the operation list): C14_invariant (every reachable state lists each endpoint at most once per resource), C14_register with C14_register_known_endpoint / C14_register_new_endpoint "
+                    "(re-registration replaces in place: same position, new token, counters cleared; a new endpoint is appended last; other resources untouched), C14_deregister with C14_deregister_exact (given the invariant, exactly the observer whose endpoint and token both match is removed), "
+                    "C14_changed_unobserved (a round on an unobserved path is the identity)."),
+        level_note=("Hand-written model of observe.rs tied to the Rust by differential execution of ~4*10^4 histories per build with full-state comparison after every step (dev and release). The equality of the model with the relational reference is checked at run time on every case, not proved."),
+        modelled="src/observe.rs Subject::{register, deregister, resource_changed, acknowledge, set_unacknowledged_limit, get_resource, get_resource_observers}",
+    ),
+    "C15": dict(
+        suites=[140, 150],
+        design_ref="DESIGN.md section 5, C15",
+        rule=("suite 140 as for C14 (the directed long histories at limits 10, 254, 255 and the exhaustive small-alphabet histories at limits 0, 1, 2 decide the counting clauses); suite 150: create_notification over token length 0..8 x 14 boundary sequences (0, 255, 256, 65535, 65536, 2^24-1, 2^24, 2^32-1, ...) x both types x 9 message ids, plus random, "
+              "each also encoded and decoded back to the same sequence; class by suite; distinct = distinct input"),
+        level_text=("Theorems: C15_round (a round on an observed resource adds exactly one to the sequence, stamps every observer with the message id, counts only confirmable rounds, and keeps exactly the observers whose count is <= the limit), "
+                    "C15_ack / C15_ack_exact (only the observer with the acknowledging endpoint, only when its pending id matches, is reset), C15_count_bounded and C15_no_counter_overflow (for every history with limits 0..255, of any length, the counter stays <= 255 between rounds, "
+                    "its increment never overflows, and the only reachable panic is site 40), C15_notification (create_notification is exactly version 1, CON/NON, 2.05, the given id, token, payload and Observe = minimal uint of the sequence). "
+                    "Known finding KF_seq_wrap (C15_KF_seq_wrap_refuted): the u32 sequence cannot increase past 2^32-1."),
+        level_note=("Model tied by differential execution with full-state comparison (hooks). 'Dropped exactly when the count of confirmable notifications since the last acknowledgement or registration exceeds the limit' is proved per round on the counter (C15_round) and checked against the history-based relational reference at run time; "
+                    "the equivalence of counter and history count is not proved as a separate theorem."),
+        modelled="src/observe.rs resource_changed, acknowledge, create_notification; src/packet.rs set_observe_value",
+    ),
     "C19": dict(
         suites=[190],
         design_ref="DESIGN.md section 5, C19",
@@ -138,11 +164,9 @@ NOT_APPLICABLE = {
     "C10": "check under construction in this development (model and theorems not yet committed)",
     "C11": "check under construction in this development (model and theorems not yet committed)",
     "C12": "check under construction in this development (model and theorems not yet committed)",
-    "C14": "check under construction in this development (model and theorems not yet committed)",
-    "C15": "check under construction in this development (model and theorems not yet committed)",
     "C16": "check under construction in this development (model and theorems not yet committed)",
     "C17": "check under construction in this development (model and theorems not yet committed)",
     "C18": "check under construction in this development (model and theorems not yet committed)",
     "C20": "check under construction in this development (model and theorems not yet committed)",
 }
-HOOK_COMMITS = []
+HOOK_COMMITS = ['d25ab05b2d89767c2eabe189d6733ff858b6e32b']
